@@ -34,6 +34,7 @@ THE SOFTWARE.
 #include <vector>
 #include <string>
 #include <fstream>
+#include <limits>
 
 #include <amgcl/util.hpp>
 #include <amgcl/detail/sort_row.hpp>
@@ -50,7 +51,10 @@ bool read(std::ifstream &f, T &val) {
 /// Read vector from a binary file.
 template <class T>
 bool read(std::ifstream &f, std::vector<T> &vec) {
-    return static_cast<bool>(f.read((char*)&vec[0], sizeof(T) * vec.size()));
+    // Nothing to read: do not depend on whether the preceding seek
+    // (possibly far behind the end of the file) was accepted.
+    if (vec.empty()) return true;
+    return static_cast<bool>(f.read((char*)vec.data(), sizeof(T) * vec.size()));
 }
 
 /// Get size of the CRS matrix stored in a binary file
@@ -85,12 +89,15 @@ void read_crs(
     if (row_beg < 0) row_beg = 0;
     if (row_end < 0) row_end = n;
 
-    precondition(row_beg >= 0 && row_end <= static_cast<ptrdiff_t>(n),
+    precondition(static_cast<ptrdiff_t>(n) >= 0, "Wrong matrix size in the file");
+    precondition(
+            row_beg >= 0 && row_beg <= row_end &&
+            row_end <= static_cast<ptrdiff_t>(n),
             "Wrong subset of rows is requested");
 
     ptrdiff_t chunk = row_end - row_beg;
 
-    ptr.resize(chunk + 1);
+    ptr.resize(static_cast<size_t>(chunk) + 1);
 
     size_t ptr_beg = sizeof(SizeT);
     f.seekg(ptr_beg + row_beg * sizeof(Ptr));
@@ -99,6 +106,16 @@ void read_crs(
     Ptr nnz;
     f.seekg(ptr_beg + n * sizeof(Ptr));
     precondition(read(f, nnz), "File I/O error");
+
+    // The row pointers come from the file: check them before they are used
+    // for sizing and indexing the column and value arrays.
+    precondition(
+            nnz >= 0 && ptr.front() >= 0 && ptr.back() <= nnz &&
+            (row_beg > 0 || ptr.front() == 0),
+            "Inconsistent row pointers in the file");
+    for(ptrdiff_t i = 0; i < chunk; ++i)
+        precondition(ptr[i] <= ptr[i + 1],
+                "Inconsistent row pointers in the file");
 
     SizeT nnz_beg = ptr.front();
     if (nnz_beg) for(auto &p : ptr) p -= nnz_beg;
@@ -117,7 +134,7 @@ void read_crs(
     for(ptrdiff_t i = 0; i < chunk; ++i) {
         Ptr beg = ptr[i];
         Ptr end = ptr[i + 1];
-        amgcl::detail::sort_row(&col[beg], &val[beg], end - beg);
+        amgcl::detail::sort_row(col.data() + beg, val.data() + beg, end - beg);
     }
 }
 
@@ -144,8 +161,14 @@ void read_dense(const std::string &fname,
     if (row_beg < 0) row_beg = 0;
     if (row_end < 0) row_end = n;
 
-    precondition(row_beg >= 0 && row_end <= static_cast<ptrdiff_t>(n),
+    precondition(static_cast<ptrdiff_t>(n) >= 0, "Wrong matrix size in the file");
+    precondition(
+            row_beg >= 0 && row_beg <= row_end &&
+            row_end <= static_cast<ptrdiff_t>(n),
             "Wrong subset of rows is requested");
+    precondition(
+            m == 0 || n <= std::numeric_limits<size_t>::max() / sizeof(Val) / m,
+            "Wrong matrix size in the file");
 
     ptrdiff_t chunk = row_end - row_beg;
 
@@ -164,7 +187,7 @@ bool write(std::ofstream &f, const T &val) {
 /// Write vector to a binary file.
 template <class T>
 bool write(std::ofstream &f, const std::vector<T> &vec) {
-    return static_cast<bool>(f.write((char*)&vec[0], sizeof(T) * vec.size()));
+    return static_cast<bool>(f.write((const char*)vec.data(), sizeof(T) * vec.size()));
 }
 
 } // namespace io
